@@ -258,14 +258,29 @@ def _sum_form_ok(ctx, H, what):
             ctx.prove_eq(W[a, b], np.eye(d), f'{what}: W[IdR,IdR] == Id')
 
 
-def add_case(ctx, kind='spin', conserve=None, L=3, DA=3, DB=2, cplx=True, swapA=False, swapB=False, plus_hc=False):
+def _sum_attributes(ctx, C, X, Y, what):
+    """documented attributes of a sum: max_range = max of the operands' (None = unknown if either is unknown), same bc / sites /
+    explicit_plus_hc, IdL = 0 / IdR = -1 on the outer bonds"""
+    rx, ry = X.max_range, Y.max_range
+    want = None if (rx is None or ry is None) else max(rx, ry)
+    ctx.prove(C.max_range == want, f'{what}: max_range == max of the operands\' max_range (None if unknown)')
+    ctx.prove(C.bc == X.bc == Y.bc and C.L == X.L and C.explicit_plus_hc == X.explicit_plus_hc and C.sites == X.sites,
+              f'{what}: bc / L / sites / explicit_plus_hc of the sum')
+    ctx.prove(C.get_IdL(0) == 0 and C.get_IdR(C.L - 1) in (-1, C.chi[-1] - 1), f'{what}: outer markers of the sum')
+
+
+def add_case(ctx, kind='spin', conserve=None, L=3, DA=3, DB=2, cplx=True, swapA=False, swapB=False, plus_hc=False, ranges=(1, 2)):
     sites, A = _mpo(ctx, 'a', kind, conserve, L, DA, True, cplx, swapA)
     _, B = _mpo(ctx, 'b', kind, conserve, L, DB, True, cplx, swapB)
     A.H.explicit_plus_hc = B.H.explicit_plus_hc = bool(plus_hc)
+    A.H.max_range, B.H.max_range = ranges  # what the builder of A, B knows about them (None = unknown)
     C = A.H + B.H
     C.test_sanity()
     dA, dB = A.dense(), B.dense()
     ctx.prove_eq(F.mpo_dense_of(C), dA + dB, 'dense(A + B) == dense(A) + dense(B)')
+    _sum_attributes(ctx, C, A.H, B.H, 'A + B')
+    _sum_attributes(ctx, B.H + A.H, B.H, A.H, 'B + A')
+    ctx.prove(A.H.max_range == ranges[0] and B.H.max_range == ranges[1], 'A + B: max_range of the operands unchanged')
     ctx.prove(C.explicit_plus_hc == bool(plus_hc), 'A + B keeps explicit_plus_hc')
     ctx.prove(all(x is not None for x in C.IdL) and all(x is not None for x in C.IdR), 'A + B has IdL / IdR on every bond')
     _sum_form_ok(ctx, C, 'A + B')
@@ -281,6 +296,55 @@ def add_case(ctx, kind='spin', conserve=None, L=3, DA=3, DB=2, cplx=True, swapA=
         ctx.fail('A + B with different explicit_plus_hc flags must raise')
     except ValueError:
         ctx.prove(True, 'A + B with different explicit_plus_hc flags raises ValueError')
+
+
+def termlist_add_case(ctx, kind='spin', conserve='Sz', bc='finite', L=3, long_range=2, sym=True):
+    """sum of two term-list MPOs of different range: dense (finite), attributes, and for infinite MPOs the decision procedures that
+    size their window from max_range: is_equal(A + B, partner differing only in the longest-range term) must be False"""
+    from tenpy.networks.terms import TermList
+    from tenpy.networks.mpo import MPOGraph
+    sites = _sites(kind, conserve, L)
+    a, b, z = ('Sp', 'Sm', 'Sz') if kind == 'spin' else ('Cd', 'C', 'N')
+    n = L if bc == 'infinite' else L - 1
+    short = [[(a, i), (b, i + 1)] for i in range(n)] + [[(a, i + 1), (b, i)] for i in range(n)] + [[(z, i)] for i in range(L)]
+    sv = [0.5] * (2 * n) + [0.25 * (i + 1) for i in range(L)]
+    long_ = [[(z, 0), (z, long_range)]]
+    if sym and bc == 'finite':
+        s_long = ctx.real('s_long')
+        s_short = ctx.real('s_short')
+        sv = [s_short * x for x in sv]
+    else:
+        s_long, s_short = 1.5, 1.
+
+    def build(terms, vals):
+        arr = np.empty(len(vals), dtype=object if (ctx.symbolic and sym and bc == 'finite') else float)
+        for k, x in enumerate(vals):
+            arr[k] = x
+        return MPOGraph.from_term_list(TermList([list(t) for t in terms], arr), sites, bc).build_MPO()
+
+    A = build(short, sv)
+    B = build(long_, [s_long])
+    ctx.prove(A.max_range == 1 and B.max_range == long_range, 'max_range of term-list MPOs == range of their longest term')
+    S = A + B
+    S.test_sanity()
+    _sum_attributes(ctx, S, A, B, 'A + B (term lists)')
+    _sum_attributes(ctx, B + A, B, A, 'B + A (term lists)')
+    if bc == 'finite':
+        tables = [F.own_ops(x) for x in sites]
+        O = sum(F.own_term_dense(sites, t, tables) * x for t, x in zip(short + long_, list(sv) + [s_long]))
+        ctx.prove_eq(F.mpo_dense_of(S), O, 'dense(A + B) == sum of all terms (term lists of different range)')
+        return
+    # infinite: concrete strengths; the comparison window of is_equal comes from max_range of the operands
+    direct = build(short + long_, list(sv) + [s_long])
+    partner = build(short + long_, list(sv) + [s_long + 1.])
+    no_long = build(short, sv)
+    ctx.prove(bool(S.is_equal(direct)) and bool(direct.is_equal(S)), 'is_equal(A + B, MPO of all terms) is True')
+    ctx.prove(bool((B + A).is_equal(S)), 'is_equal(B + A, A + B) is True')
+    ctx.prove(not S.is_equal(partner) and not partner.is_equal(S),
+              'is_equal(A + B, partner differing only in the longest-range term) is False')
+    # (the window comes from the max_range of the MPO is_equal is called on -- documented default -- so only this direction is claimed)
+    ctx.prove(not S.is_equal(no_long), 'is_equal(A + B, A) is False (B is the long-range term)')
+    ctx.prove(bool(S.is_hermitian()), 'A + B (Hermitian operands) is_hermitian')
 
 
 def dagger_case(ctx, kind='spin', conserve=None, L=3, D=3, markers=True, cplx=True, swap=False):
@@ -745,7 +809,12 @@ def CASES(tier, seed):
     # ---- MPO algebra
     add('add_case', 'add[spin,L=3,complex]', L=3, DA=3, DB=2)
     add('add_case', 'add[spin,L=2,markers swapped,plus_hc]', L=2, DA=2, DB=3, swapA=True, plus_hc=True)
-    add('add_case', 'add[fermion N,L=3,complex]', kind='fermion', conserve='N', L=3)
+    add('add_case', 'add[fermion N,L=3,complex]', kind='fermion', conserve='N', L=3, ranges=[2, None])
+    add('add_case', 'add[spin,L=2,max_range 3 and 1]', L=2, DA=2, DB=2, ranges=[3, 1])
+    add('termlist_add_case', 'add[term lists,spin Sz,finite L=3,ranges 1 and 2,symbolic strengths]', bc='finite', L=3, long_range=2)
+    add('termlist_add_case', 'add[term lists,spin Sz,infinite L=2,ranges 1 and 4,is_equal]', bc='infinite', L=2, long_range=4, sym=False)
+    add('termlist_add_case', 'add[term lists,fermion N,infinite L=1,ranges 1 and 3,is_equal]', kind='fermion', conserve='N', bc='infinite',
+        L=1, long_range=3, sym=False)
     add('dagger_case', 'dagger[spin,L=3,markers]', L=3, D=3, markers=True)
     add('dagger_case', 'dagger[spin,L=3,no markers]', L=3, D=3, markers=False)
     add('dagger_case', 'dagger[fermion N,L=3]', kind='fermion', conserve='N', L=3)
